@@ -403,3 +403,33 @@ def pick_violation(prop, viols):
         if v[0] not in known:
             return v
     return viols[0]
+
+
+def invalid_tail(m, bad):
+    """Signature tail for a list of violated clauses (refsem.valid output): the failing oracle clause plus narrow,
+    root-cause discriminating tags, so that a different failure of the same property is a different signature."""
+    F = m.factors
+    byname = {F[fid].name: F[fid] for fid in m.design}
+    first = bad[0]
+    kind = clause_kind(first)
+    tags = []
+    if kind == "ExactlyK":
+        k = int(first.split("(")[1].split(",")[0])
+        if k > m.T:
+            tags.append("k>window")
+    elif kind == "derived":
+        name = first.split(" ")[1].split("=")[0]
+        f = byname.get(name)
+        if f is not None:
+            starts = set((a.start if (a.kind == "derived" and a.complex) else 0) for a in f.args)
+            if len(starts) > 1:
+                tags.append("args-with-different-start")
+    elif kind == "trial-count":
+        name = first.split(" ")[1].rstrip(":")
+        f = byname.get(name)
+        got, want = [int(x) for x in first.split(":")[1].replace("!=", " ").split()]
+        if f is not None:
+            tags.append(f.kind + ("-shorter" if got < want else "-longer"))
+            if f.kind == "derived" and any(a.kind == "derived" and a.complex for a in f.args):
+                tags.append("complex-arg")
+    return "/".join([kind] + tags)
